@@ -43,7 +43,7 @@ theorem replaceKids_split (h : Nat) (g : HTree → List HTree) (k1 k2 : List HTr
     simp only [handlesList, List.mem_append, not_or] at hn
     have hk : k.handle ≠ h := fun e => hn.1 (e ▸ handle_mem_handles_ff k)
     have hkk : h ∉ handlesList k.kids := by
-      intro hm; apply hn.1; rw [handles_eq]; exact List.mem_cons_of_mem _ hm
+      intro hm; apply hn.1; rw [ff_handles_eq]; exact List.mem_cons_of_mem _ hm
     simp only [List.cons_append]
     conv => lhs; unfold replaceKids
     rw [if_neg hk, replaceBelow_of_not_mem_ff h g k hkk, ih hn.2]
